@@ -252,7 +252,7 @@ def check_stacking(case):
 
 @st.composite
 def _stacking_cases(draw, tier="quick"):
-    n = draw(st.integers(1, 4))
+    n = draw(st.one_of(st.integers(1, 4), st.integers(1, 4), st.integers(10, 13)))          # two-digit positions (models_10 sorts before models_2)
     # task 'clf': integer class labels as the target, so that classifiers (integer outputs), regressors (float outputs) and transformers sit
     # side by side in one stacking, in any order
     task = draw(st.sampled_from(["reg", "reg", "clf"]))
